@@ -1037,6 +1037,7 @@ postfixexpr(struct scope *s, struct expr *r)
 			r->lvalue = lvalue;
 			if (m->bits.before || m->bits.after) {
 				e = mkexpr(EXPRBITFIELD, r->type, r);
+				e->qual = r->qual;
 				e->lvalue = lvalue;
 				e->u.bitfield.bits = m->bits;
 			} else {
